@@ -359,13 +359,20 @@ def idiom_e(body, wl):
     for bi, name, t in cfg.calls_in(blocks, wl["members"]):
         if (name or "").endswith("IndexMut>::index_mut") and not t["dest"]["p"]:
             m = re.match(r"^&mut (.+)$", str(locals_[t["dest"]["l"]]))
-            adt = lex.adt(m.group(1)) if m else None
+            ety = m.group(1) if m else ""
+            adt = lex.adt(ety) if m else None
             if adt is not None and len(adt["variants"]) >= 2 and all(not v["fields"] for v in adt["variants"]):
-                marks = (m.group(1), adt)
+                marks = (ety, [(v["name"], ("adt", ety, v["name"], i, ())) for i, v in enumerate(adt["variants"])])
+            elif ety == "bool":
+                marks = (ety, [("false", ("int", 0, "bool")), ("true", ("int", 1, "bool"))])
+            elif ety == "std::option::Option<bool>":
+                marks = (ety, [("None", NONE), ("Some(false)", some(("int", 0, "bool"))),
+                               ("Some(true)", some(("int", 1, "bool")))])
     if marks is None:
-        return False, "no table of field-less marks indexed in the loop"
-    mty, adt = marks
-    variants = [v["name"] for v in adt["variants"]]
+        return False, "no table of marks (a field-less enum, bool or Option<bool>) indexed in the loop"
+    mty, domain = marks
+    variants = [n for n, _ in domain]
+    value_name = {repr(v): n for n, v in domain}
     heads = set(wl["loops"])
     elem_ty = None
     m = re.match(r"^std::option::Option<(.+)>$", locals_[blocks[wl["pop"]]["term"]["dest"]["l"]])
@@ -406,7 +413,7 @@ def idiom_e(body, wl):
                 return None
             eng = Engine(body, models=models, stop_blocks=heads)
             st0 = Path()
-            st0.set_cell(("sym", "mark"), (), ("adt", mty, old, oi, ()))
+            st0.set_cell(("sym", "mark"), (), domain[oi][1])
             res = eng.run(wl["head"], st0)
             if not res:
                 bad.append("%s, flag %s: no path" % (old, flag))
@@ -414,7 +421,9 @@ def idiom_e(body, wl):
             for st, end in res:
                 pushed = any(e[0] == "push" for e in st.events)
                 fin = (st.cells.get(("sym", "mark")) or {}).get(())
-                fin_name = fin[2] if (fin and fin[0] == "adt") else None
+                fin_name = value_name.get(repr(fin))
+                if fin_name is None and fin is not None and fin[0] == "adt" and fin[1] == mty:
+                    fin_name = fin[2]
                 proceeds = pushed or not (end[0] == "STOP" and end[1] == wl["head"])
                 if fin_name is None:
                     bad.append("%s, flag %s: the mark is overwritten by an unknown value" % (old, flag))
@@ -799,13 +808,20 @@ def peeked_tokens(body):
     """Token kinds tested with `input.peek(..)` in the body, in order."""
     out = []
     for bi, callee, t in cfg.calls_in(body["mir"]["blocks"]):
-        if callee == "syn::parse::ParseBuffer::peek":
+        if callee in ("syn::parse::ParseBuffer::peek", "syn::lookahead::Lookahead1::peek", "syn::parse::Lookahead1::peek"):
+            # `input.peek(T)`, or `let l = input.lookahead1(); l.peek(T)`
             full = t.get("res") or t["f"].get("fn") or ""
             m = re.search(r"fn\(.*?\) -> (?:syn::token::(\w+)|syn::(Lit\w+)|syn::(Ident)) \{", full)
             if m:
                 out.append((m.group(1) or m.group(2) or m.group(3), bi))
             else:
                 out.append(("?" + full[-60:], bi))
+        elif callee == "syn::parse::ParseBuffer::parse":
+            # `input.parse::<Option<T>>()?.is_some()` tests for T and consumes it in one step
+            full = t.get("res") or t["f"].get("fn") or ""
+            m = re.search(r"parse::<std::option::Option<(?:syn::token::(\w+)|syn::(Lit\w+)|syn::(Ident))>>", full)
+            if m:
+                out.append((m.group(1) or m.group(2) or m.group(3), bi))
     return out
 
 
@@ -814,7 +830,7 @@ def parsed_tokens(body):
     for bi, callee, t in cfg.calls_in(body["mir"]["blocks"]):
         if callee == "syn::parse::ParseBuffer::parse":
             full = t.get("res") or t["f"].get("fn") or ""
-            m = re.search(r"parse::<(?:syn::token::(\w+)|syn::(Lit\w+)|syn::(Ident))>", full)
+            m = re.search(r"parse::<(?:std::option::Option<)?(?:syn::token::(\w+)|syn::(Lit\w+)|syn::(Ident))>", full)
             if m:
                 out.append((m.group(1) or m.group(2) or m.group(3), bi))
     return out
@@ -1418,6 +1434,34 @@ def check_rchk(ctx, prog):
         exps = [bi for bi, c, t in cfg.calls_in(blocks)
                 if c in ("std::option::Option::expect", "std::option::Option::unwrap")
                 and "dfa::DFA" in (t.get("res") or "")]
+        # ... or `.unwrap_or_else(|| panic!(..))`, or a `match` / `if let` whose `None` arm panics
+        locals_b = b["mir"]["locals"]
+        for bi, c, t in cfg.calls_in(blocks):
+            if c == "std::option::Option::unwrap_or_else" and "dfa::DFA" in (t.get("res") or "") and len(t["args"]) == 2:
+                from .rules_thompson import Sym as _Sym
+                clo = _Sym(b, {}, crate=lex).operand(t["args"][1])
+                if clo[0] == "agg" and str(clo[1]).startswith("closure:"):
+                    cb = lex.body(norm_path(clo[1][len("closure:"):]))
+                    if cb is not None and diverges_after(cb["mir"]["blocks"], 0):
+                        exps.append(bi)
+        for bi, bb in enumerate(blocks):
+            t = bb["term"]
+            if bb["cleanup"] or t["k"] != "switch":
+                continue
+            d = t["d"].get("move") or t["d"].get("copy")
+            if d is None or d["p"]:
+                continue
+            src = None
+            for st in bb["st"]:
+                if "lhs" in st and st["lhs"]["l"] == d["l"] and st["rv"]["k"] == "discr":
+                    src = st["rv"]["p"]["l"]
+            if src is None:
+                continue
+            ty = str(locals_b[src])
+            if ty.startswith("std::option::Option<") and "dfa::DFA" in ty:
+                tgts = [tg for _, tg in t["arms"]] + [t["else"]]
+                if any(diverges_after(blocks, tg) for tg in tgts):
+                    exps.append(bi)
         site("lexer: a first rule set not named Init is rejected (init DFA must exist)", "notinit",
              bool(exps), b["span"], {"sites": len(exps)})
         # 5. error type twice: a panicking branch on a value computed from the `type Error = ..` item
